@@ -538,7 +538,7 @@ Proof. repeat split; reflexivity. Qed.
    null, repeated, or stand beside members that name nothing.  Scan decodes every line into a
    fresh entity, so the ammo a line means depends on that line only.
    --------------------------------------------------------------------------------------- *)
-From PV Require Import Model.ShootJsonLine Proofs.ShootJsonLineProofs.
+From PV Require Import Model.ShootJsonLine Proofs.ShootJsonLineProofs Gen.JsonLineTargetGen Gen.JsonLineTarget_bridge.
 
 (* every line list (any members, any order), every url oracle, auto-tag setting and number k of
    acquisitions: when the provider accepts the lines (entries es) shooting what it delivers yields
@@ -575,6 +575,22 @@ Proof.
   split; [exact (reuse_keeping_tag clear Hc)|]. intros t Ht. exact (reuse_keeping_tag_wrong clear t Hc Ht).
 Qed.
 Print Assumptions C10_jsonline_reused_target_refuted.
+
+(* The decoder of the SOURCE: the way jsonline.go Scan holds its decode target is re-read on every run
+   (translate jsontarget -> Gen/JsonLineTargetGen.v); with it every line list decodes to the entities of the
+   model above, so the tags are the ones written on the lines themselves.  In general: any target that is
+   zeroed before each line is that decoder; a reused target whose tag field is not reset carries tags over. *)
+Theorem C10_jsonline_source_target :
+  (forall ls, scan_entities gen_jsonline_target ls = lines_entities ls) /\
+  (forall ls, map j_tag (scan_entities gen_jsonline_target ls) = map line_tag ls) /\
+  (forall t, target_zeroed t = true -> forall ls, scan_entities t ls = lines_entities ls) /\
+  (forall fs, resets fs FTag = false -> forall ls, map j_tag (scan_entities (TReused fs) ls) = carried_tags [] ls).
+Proof.
+  split; [exact c10_jsonline_scan_is_model|].
+  split; [intros ls; rewrite c10_jsonline_scan_is_model; apply lines_entities_tags|].
+  split; [exact scan_entities_zeroed|exact scan_entities_tag_kept].
+Qed.
+Print Assumptions C10_jsonline_source_target.
 
 (* non-vacuity: three lines - tagged, without a tag member (an ignored "tags" member instead), tag
    written twice - shot with auto-tag for untagged ammo only *)
